@@ -634,6 +634,8 @@ func (r *Request) Send() (*Response, error) {
 // Reset clears the Request object, returning it to its default state.
 // Used by ReleaseRequest to recycle the object.
 func (r *Request) Reset() {
+	// a recycled Request must not stay bound to the client (headers, cookies, jar) of its previous user
+	r.client = nil
 	r.url = ""
 	r.method = fiber.MethodGet
 	r.userAgent = ""
